@@ -234,6 +234,10 @@ func buildCall(ctx context.Context, table string, op opSpec, opts ...func(hrpc.C
 		opts = append(opts[:len(opts):len(opts)], hrpc.SkipBatch())
 	}
 	switch op.Kind {
+	case "badget":
+		// a Get without a row: the constructor accepts it, it cannot be serialised (the protobuf row
+		// field is required). That is this call's failure - nobody else's.
+		return hrpc.NewGet(ctx, tb, nil, append([]func(hrpc.Call) error{hrpc.Families(markerFam(op.Marker))}, opts...)...)
 	case "get":
 		return hrpc.NewGet(ctx, tb, op.Key, append([]func(hrpc.Call) error{hrpc.Families(markerFam(op.Marker))}, opts...)...)
 	case "put", "cas":
@@ -368,6 +372,9 @@ func doOp(cl gohbase.Client, ctx context.Context, table string, op opSpec) (err 
 		return cerr, nil
 	}
 	switch op.Kind {
+	case "badget":
+		_, e := cl.Get(call.(*hrpc.Get))
+		return e, nil
 	case "get":
 		r, e := cl.Get(call.(*hrpc.Get))
 		if e != nil {
